@@ -2,8 +2,8 @@
    ExtrOcamlBasic only: bool, option, list, prod, unit, sumbool map to OCaml natives;
    nat, positive, N, Z stay the extracted inductive types. No Extract Constant. *)
 From Coq Require Import Extraction ExtrOcamlBasic ZArith NArith List.
-From OFV Require Import CSem KernelRun ITModel ITRun Sparse SparseRun RSApi RSRun Pchk Params Dense DenseRun MLRun Pchk2D RSEnc GaussJordan InvertVdm ApiArgs HeapRun RSHeap.
+From OFV Require Import CSem KernelRun ITModel ITRun Sparse SparseRun RSApi RSRun Pchk Params Dense DenseRun MLRun Pchk2D RSEnc GaussJordan InvertVdm ApiArgs HeapRun RSHeap SparseId.
 From OFV.gen Require Import GenPrng GenBlocking.
 Extraction Language OCaml.
 Extraction "model.ml" Z.of_nat Z.to_nat Z.add Z.mul Z.sub Z.opp Z.compare N.of_nat N.to_nat Z.of_N Z.to_N
-  of_rfc5170_rand of_rfc5170_srand of_compute_blocking_struct run_kernel it_session s_allocate sparse_step rs_session pchk accept_ldpc accept_rs28 accept_rs2m d_allocate dense_step solve_bytes ml_session create2d rs_repairs invert_mat256 invert_mat16 ev_session build_enc256 build_enc16 api_verdict hweight_array_run heap_session rs_heap_session.
+  of_rfc5170_rand of_rfc5170_srand of_compute_blocking_struct run_kernel it_session s_allocate sparse_step rs_session pchk accept_ldpc accept_rs28 accept_rs2m d_allocate dense_step solve_bytes ml_session create2d rs_repairs invert_mat256 invert_mat16 ev_session build_enc256 build_enc16 api_verdict hweight_array_run heap_session rs_heap_session i_allocate i_step i_dump.
